@@ -1183,12 +1183,11 @@ Lemma ptot_comm n1 o1 v1 n2 o2 v2 l : n1 <> n2 ->
   ptot n1 o1 v1 (ptot n2 o2 v2 l) = ptot n2 o2 v2 (ptot n1 o1 v1 l).
 Proof.
   intros Hn. induction l as [|[n v] r IH]; cbn [ptot]; [reflexivity|].
-  destruct (String.eqb n n1) eqn:E1, (String.eqb n n2) eqn:E2; cbn [andb].
+  destruct (String.eqb n n1) eqn:E1, (String.eqb n n2) eqn:E2.
   - apply String.eqb_eq in E1, E2. congruence.
-  - destruct (String.eqb v o1); cbn [ptot]; rewrite ?E1, ?E2; cbn [andb]; [reflexivity|].
-    destruct (String.eqb v o1) eqn:Ev; [|rewrite IH; reflexivity]. reflexivity.
-  - destruct (String.eqb v o2) eqn:Ev; cbn [ptot]; rewrite ?E1, ?E2, ?Ev; cbn [andb]; [reflexivity|]. rewrite IH. reflexivity.
-  - cbn [ptot]. rewrite E1, E2. cbn [andb]. rewrite IH. reflexivity.
+  - destruct (String.eqb v o1) eqn:V1; cbn [andb ptot]; rewrite ?E1, ?E2, ?V1; cbn [andb]; rewrite ?IH; reflexivity.
+  - destruct (String.eqb v o2) eqn:V2; cbn [andb ptot]; rewrite ?E1, ?E2, ?V2; cbn [andb]; rewrite ?IH; reflexivity.
+  - cbn [andb ptot]. rewrite E1, E2. cbn [andb]. rewrite IH. reflexivity.
 Qed.
 Lemma phit_ptot n1 o1 v1 n2 o2 l : n1 <> n2 -> phit n2 o2 (ptot n1 o1 v1 l) = phit n2 o2 l.
 Proof.
@@ -1197,4 +1196,322 @@ Proof.
   - apply andb_true_iff in E. destruct E as [E _]. apply String.eqb_eq in E. subst n.
     unfold phit. cbn [existsb fst snd]. assert (String.eqb n1 n2 = false) as -> by (apply String.eqb_neq; exact Hn). reflexivity.
   - unfold phit in *. cbn [existsb]. rewrite IH. reflexivity.
+Qed.
+
+(* two entries that do not address the same attribute *)
+Definition indep (ad1 : attrdiff) (k1 : key) (ad2 : attrdiff) (k2 : key) : Prop :=
+  match ad1, ad2 with
+  | DSize _ _ _, DSize _ _ _ => k1 <> k2
+  | DName _ _, DName _ _ => k1 <> k2
+  | DInfo n1 _ _, DInfo n2 _ _ => k1 <> k2 \/ n1 <> n2
+  | _, _ => True
+  end.
+Lemma indep_sym ad1 k1 ad2 k2 : indep ad1 k1 ad2 k2 -> indep ad2 k2 ad1 k1.
+Proof. destruct ad1, ad2; cbn; intros H; auto. destruct H; auto. Qed.
+
+Lemma upd_name_eq k v x : upd_key k (set_name v) x = set_name (if key_eqb (akey x) k then v else a_name x) x.
+Proof. unfold upd_key. destruct (key_eqb (akey x) k); destruct x; reflexivity. Qed.
+Lemma upd_infos_eq k nm o n x :
+  upd_key k (fun y => set_infos (patch_total nm o n (a_infos y)) y) x =
+  set_infos (if key_eqb (akey x) k then ptot nm o n (a_infos x) else a_infos x) x.
+Proof. unfold upd_key. rewrite patch_total_ptot. destruct (key_eqb (akey x) k); destruct x; reflexivity. Qed.
+
+Lemma eff_fn_eq rev ad k anc x :
+  eff_fn rev ad k anc x =
+  match ad with
+  | DSize _ ov nv => set_tmem (if mem_key (akey x) (k :: anc) then u64add (a_tmem x) (u64sub (newv rev ov nv) (oldv rev ov nv)) else a_tmem x)
+                              (set_lmem (if key_eqb (akey x) k then newv rev ov nv else a_lmem x) x)
+  | DName ov nv => set_name (if key_eqb (akey x) k then newv rev ov nv else a_name x) x
+  | DInfo nm ov nv => set_infos (if key_eqb (akey x) k then ptot nm (oldv rev ov nv) (newv rev ov nv) (a_infos x) else a_infos x) x
+  | DOther _ => x
+  end.
+Proof. destruct ad; cbn [eff_fn]; [apply size_upd_eq|apply upd_name_eq|apply upd_infos_eq|reflexivity]. Qed.
+
+Lemma guard_ok_phit rev nm ov nv a : guard_ok rev (DInfo nm ov nv) a = phit nm (oldv rev ov nv) (a_infos a).
+Proof. cbn [guard_ok]. rewrite patch_infos_ptot. destruct (phit _ _ _); reflexivity. Qed.
+
+Lemma key_neq_eqb k1 k2 : k1 <> k2 -> key_eqb k2 k1 = false.
+Proof. intros H. destruct (key_eqb k2 k1) eqn:E; [|reflexivity]. apply key_eqb_eq in E. congruence. Qed.
+
+(* the check of the second entry does not see the update of the first *)
+Lemma guard_indep b1 ad1 k1 anc1 b2 ad2 x :
+  indep ad1 k1 ad2 (akey x) -> guard_ok b2 ad2 (eff_fn b1 ad1 k1 anc1 x) = guard_ok b2 ad2 x.
+Proof.
+  intros H. rewrite eff_fn_eq. destruct ad2 as [i2 o2 n2|o2 n2|nm2 o2 n2|t2]; [| | |reflexivity].
+  - destruct ad1 as [i1 o1 n1|o1 n1|nm1 o1 n1|t1]; cbn [guard_ok a_type a_lmem set_tmem set_lmem set_name set_infos]; try reflexivity.
+    cbn [indep] in H. rewrite (key_neq_eqb _ _ H). reflexivity.
+  - destruct ad1 as [i1 o1 n1|o1 n1|nm1 o1 n1|t1]; cbn [guard_ok a_name set_tmem set_lmem set_name set_infos]; try reflexivity.
+    cbn [indep] in H. rewrite (key_neq_eqb _ _ H). reflexivity.
+  - rewrite !guard_ok_phit.
+    destruct ad1 as [i1 o1 n1|o1 n1|nm1 o1 n1|t1]; cbn [a_infos set_tmem set_lmem set_name set_infos]; try reflexivity.
+    cbn [indep] in H. destruct (key_eqb (akey x) k1) eqn:Ek; [|reflexivity].
+    apply key_eqb_eq in Ek. destruct H as [H|H]; [congruence|]. apply phit_ptot. exact H.
+Qed.
+
+Lemma u64add_comm3 t a b : u64add (u64add t a) b = u64add (u64add t b) a.
+Proof.
+  unfold u64add. assert (HU : U64 <> 0%N) by (unfold U64; discriminate).
+  rewrite !N.add_mod_idemp_l by exact HU. f_equal. lia.
+Qed.
+
+(* and the two updates commute *)
+Lemma eff_commute b1 ad1 k1 anc1 b2 ad2 k2 anc2 x :
+  indep ad1 k1 ad2 k2 ->
+  eff_fn b1 ad1 k1 anc1 (eff_fn b2 ad2 k2 anc2 x) = eff_fn b2 ad2 k2 anc2 (eff_fn b1 ad1 k1 anc1 x).
+Proof.
+  intros H. rewrite (eff_fn_eq b1), (eff_fn_eq b2 ad2 k2 anc2 (eff_fn b1 ad1 k1 anc1 x)), !eff_fn_kp.
+  rewrite (eff_fn_eq b2 ad2 k2 anc2 x), (eff_fn_eq b1 ad1 k1 anc1 x).
+  destruct x as [d i t st os ss nm ta lm tm inf]. unfold akey; cbn [a_depth a_lidx].
+  destruct ad1 as [i1 o1 n1|o1 n1|nm1 o1 n1|t1], ad2 as [i2 o2 n2|o2 n2|nm2 o2 n2|t2];
+    unfold set_tmem, set_lmem, set_name, set_infos;
+    cbn [a_tmem a_lmem a_name a_infos a_depth a_lidx a_type a_subtype a_os_index a_sets a_tattr]; try reflexivity; cbn [indep] in H.
+  - (* size, size *)
+    f_equal.
+    + destruct (key_eqb (d, i) k1) eqn:E1, (key_eqb (d, i) k2) eqn:E2; try reflexivity.
+      apply key_eqb_eq in E1, E2. congruence.
+    + destruct (mem_key (d, i) (k1 :: anc1)), (mem_key (d, i) (k2 :: anc2)); try reflexivity. apply u64add_comm3.
+  - (* name, name *)
+    f_equal. destruct (key_eqb (d, i) k1) eqn:E1, (key_eqb (d, i) k2) eqn:E2; try reflexivity.
+    apply key_eqb_eq in E1, E2. congruence.
+  - (* info, info *)
+    f_equal. destruct (key_eqb (d, i) k1) eqn:E1, (key_eqb (d, i) k2) eqn:E2; try reflexivity.
+    apply key_eqb_eq in E1, E2. destruct H as [H|H]; [congruence|]. apply ptot_comm. exact H.
+Qed.
+
+(* ------------------------------------------------------------------ *)
+(* entries on different attributes commute                              *)
+
+Lemma apply_obj_iff b d i ad T a anc T1 :
+  get_obj T d i = Some (a, anc) ->
+  (apply_one b (EAttr d i ad) T = Ok T1 <->
+   guard_ok b ad a = true /\ T1 = run_eff (EObj (eff_fn b ad (akey a) anc)) T).
+Proof.
+  intros Eg. unfold apply_one. destruct (step b (EAttr d i ad) T) as [ef| |] eqn:Es.
+  - apply (step_obj_ok _ _ _ _ _ _ _ _ Eg) in Es. destruct Es as [Hg ->]. split; [intros E; injection E as <-; auto|intros [_ ->]; reflexivity].
+  - split; [discriminate|]. intros [Hg _].
+    assert (X : step b (EAttr d i ad) T = Ok (EObj (eff_fn b ad (akey a) anc))) by (apply (step_obj_ok _ _ _ _ _ _ _ _ Eg); auto).
+    congruence.
+  - split; [discriminate|]. intros [Hg _].
+    assert (X : step b (EAttr d i ad) T = Ok (EObj (eff_fn b ad (akey a) anc))) by (apply (step_obj_ok _ _ _ _ _ _ _ _ Eg); auto).
+    congruence.
+Qed.
+
+Lemma apply_tinfo_iff b d i ad T T1 :
+  get_obj T d i = None ->
+  (apply_one b (EAttr d i ad) T = Ok T1 <->
+   (d =? t_nbl T)%Z = true /\ exists nm ov nv, ad = DInfo nm ov nv /\ phit nm (oldv b ov nv) (t_infos T) = true /\
+     T1 = set_tinfos (ptot nm (oldv b ov nv) (newv b ov nv) (t_infos T)) T).
+Proof.
+  intros Eg. unfold apply_one. destruct (step b (EAttr d i ad) T) as [ef| |] eqn:Es.
+  - apply (step_tinfo_ok _ _ _ _ _ _ Eg) in Es. destruct Es as [Hd (nm & ov & nv & -> & Hp & ->)].
+    rewrite patch_infos_ptot in Hp. destruct (phit nm (oldv b ov nv) (t_infos T)) eqn:Eh; [|contradiction].
+    cbn [run_eff]. rewrite patch_total_ptot. split.
+    + intros E. injection E as <-. split; [exact Hd|]. exists nm, ov, nv. auto.
+    + intros [_ (nm' & ov' & nv' & E & _ & ->)]. injection E as <- <- <-. reflexivity.
+  - split; [discriminate|]. intros [Hd (nm & ov & nv & -> & Hp & _)].
+    assert (X : step b (EAttr d i (DInfo nm ov nv)) T = Ok (ETinfos (patch_total nm (oldv b ov nv) (newv b ov nv)))).
+    { apply (step_tinfo_ok _ _ _ _ _ _ Eg). split; [exact Hd|]. exists nm, ov, nv. repeat split.
+      rewrite patch_infos_ptot, Hp. discriminate. }
+    congruence.
+  - split; [discriminate|]. intros [Hd (nm & ov & nv & -> & Hp & _)].
+    assert (X : step b (EAttr d i (DInfo nm ov nv)) T = Ok (ETinfos (patch_total nm (oldv b ov nv) (newv b ov nv)))).
+    { apply (step_tinfo_ok _ _ _ _ _ _ Eg). split; [exact Hd|]. exists nm, ov, nv. repeat split.
+      rewrite patch_infos_ptot, Hp. discriminate. }
+    congruence.
+Qed.
+
+Lemma get_obj_at_nbl T d i : (0 <= t_nbl T)%Z -> (d =? t_nbl T)%Z = true -> get_obj T d i = None.
+Proof.
+  intros H0 Hd. apply Z.eqb_eq in Hd. subst d. unfold get_obj, depth_addressable.
+  replace ((0 <=? t_nbl T) && (t_nbl T <? t_nbl T))%Z with false by (rewrite Z.ltb_irrefl, andb_false_r; reflexivity).
+  cbn [orb]. replace (0 <=? HWLOC_TYPE_DEPTH_NUMANODE - t_nbl T)%Z with false; [reflexivity|].
+  symmetry. apply Z.leb_gt. unfold HWLOC_TYPE_DEPTH_NUMANODE. lia.
+Qed.
+
+Lemma run_obj_obj_comm f g T :
+  (forall x, f (g x) = g (f x)) -> run_eff (EObj f) (run_eff (EObj g) T) = run_eff (EObj g) (run_eff (EObj f) T).
+Proof.
+  intros H. destruct T as [r nbl ac an ti di ma ck]. unfold run_eff, set_root. cbn. f_equal.
+  rewrite !tmap_tmap. apply tmap_ext_in. intros a _. apply H.
+Qed.
+
+Lemma slot_indep T d1 i1 ad1 a1 anc1 d2 i2 ad2 a2 anc2 :
+  (0 <= t_nbl T)%Z ->
+  get_obj T d1 i1 = Some (a1, anc1) -> get_obj T d2 i2 = Some (a2, anc2) ->
+  slot_eqb (slot_of (t_nbl T) (EAttr d1 i1 ad1)) (slot_of (t_nbl T) (EAttr d2 i2 ad2)) = false ->
+  indep ad1 (akey a1) ad2 (akey a2).
+Proof.
+  intros H0 E1 E2 Hs.
+  destruct (get_obj_some _ _ _ _ _ E1) as [_ K1]. destruct (get_obj_some _ _ _ _ _ E2) as [_ K2]. rewrite K1, K2.
+  assert (N1 : (d1 =? t_nbl T)%Z = false).
+  { destruct (d1 =? t_nbl T)%Z eqn:E; [|reflexivity]. rewrite (get_obj_at_nbl _ _ i1 H0 E) in E1. discriminate. }
+  assert (N2 : (d2 =? t_nbl T)%Z = false).
+  { destruct (d2 =? t_nbl T)%Z eqn:E; [|reflexivity]. rewrite (get_obj_at_nbl _ _ i2 H0 E) in E2. discriminate. }
+  destruct ad1, ad2; cbn [slot_of indep] in *; rewrite ?N1, ?N2 in Hs; cbn [slot_eqb] in Hs; auto.
+  - intros E. rewrite E, key_eqb_refl in Hs. discriminate.
+  - intros E. rewrite E, key_eqb_refl in Hs. discriminate.
+  - destruct (String.eqb nm nm0) eqn:En.
+    + left. intros E. rewrite E, key_eqb_refl in Hs. discriminate.
+    + right. apply String.eqb_neq. exact En.
+Qed.
+
+Lemma step_commute b1 e1 b2 e2 T T1 T12 :
+  (0 <= t_nbl T)%Z ->
+  slot_eqb (slot_of (t_nbl T) e1) (slot_of (t_nbl T) e2) = false ->
+  apply_one b1 e1 T = Ok T1 -> apply_one b2 e2 T1 = Ok T12 ->
+  exists T2, apply_one b2 e2 T = Ok T2 /\ apply_one b1 e1 T2 = Ok T12.
+Proof.
+  intros H0 Hs A1 A2.
+  destruct e1 as [d1 i1 ad1|? ?|?]; [|discriminate A1|discriminate A1].
+  destruct e2 as [d2 i2 ad2|? ?|?]; [|discriminate A2|discriminate A2].
+  destruct (get_obj T d1 i1) as [[a1 anc1]|] eqn:G1; destruct (get_obj T d2 i2) as [[a2 anc2]|] eqn:G2.
+  - (* object, object *)
+    pose proof (slot_indep _ _ _ _ _ _ _ _ _ _ _ H0 G1 G2 Hs) as Hi.
+    apply (apply_obj_iff _ _ _ _ _ _ _ _ G1) in A1. destruct A1 as [Hg1 ->].
+    set (f1 := eff_fn b1 ad1 (akey a1) anc1) in *.
+    assert (G2' : get_obj (run_eff (EObj f1) T) d2 i2 = Some (f1 a2, anc2)).
+    { rewrite get_obj_run_obj by apply eff_fn_kp. rewrite G2. reflexivity. }
+    apply (apply_obj_iff _ _ _ _ _ _ _ _ G2') in A2. destruct A2 as [Hg2 ->].
+    unfold f1 in Hg2 at 1. rewrite guard_indep in Hg2 by exact Hi.
+    replace (akey (f1 a2)) with (akey a2) by (symmetry; apply eff_fn_kp).
+    set (f2 := eff_fn b2 ad2 (akey a2) anc2) in *.
+    exists (run_eff (EObj f2) T). split; [apply (apply_obj_iff _ _ _ _ _ _ _ _ G2); auto|].
+    assert (G1' : get_obj (run_eff (EObj f2) T) d1 i1 = Some (f2 a1, anc1)).
+    { rewrite get_obj_run_obj by apply eff_fn_kp. rewrite G1. reflexivity. }
+    apply (apply_obj_iff _ _ _ _ _ _ _ _ G1'). split.
+    + unfold f2. rewrite guard_indep by (apply indep_sym; exact Hi). exact Hg1.
+    + replace (akey (f2 a1)) with (akey a1) by (symmetry; apply eff_fn_kp). fold f1.
+      symmetry. apply run_obj_obj_comm. intros x. apply eff_commute. exact Hi.
+  - (* object, topology infos *)
+    apply (apply_obj_iff _ _ _ _ _ _ _ _ G1) in A1. destruct A1 as [Hg1 ->].
+    set (f1 := eff_fn b1 ad1 (akey a1) anc1) in *.
+    assert (G2' : get_obj (run_eff (EObj f1) T) d2 i2 = None).
+    { rewrite get_obj_run_obj by apply eff_fn_kp. rewrite G2. reflexivity. }
+    apply (apply_tinfo_iff _ _ _ _ _ _ G2') in A2.
+    replace (t_nbl (run_eff (EObj f1) T)) with (t_nbl T) in A2 by (destruct T; reflexivity).
+    replace (t_infos (run_eff (EObj f1) T)) with (t_infos T) in A2 by (destruct T; reflexivity).
+    destruct A2 as [Hd (nm & ov & nv & -> & Hp & ->)].
+    exists (set_tinfos (ptot nm (oldv b2 ov nv) (newv b2 ov nv) (t_infos T)) T). split.
+    + apply (apply_tinfo_iff _ _ _ _ _ _ G2). split; [exact Hd|]. exists nm, ov, nv. auto.
+    + apply (apply_obj_iff _ _ _ _ _ a1 anc1); [rewrite get_obj_set_tinfos; exact G1|]. split; [exact Hg1|].
+      fold f1. destruct T; reflexivity.
+  - (* topology infos, object *)
+    apply (apply_tinfo_iff _ _ _ _ _ _ G1) in A1. destruct A1 as [Hd (nm & ov & nv & -> & Hp & ->)].
+    assert (G2' : get_obj (set_tinfos (ptot nm (oldv b1 ov nv) (newv b1 ov nv) (t_infos T)) T) d2 i2 = Some (a2, anc2))
+      by (rewrite get_obj_set_tinfos; exact G2).
+    apply (apply_obj_iff _ _ _ _ _ _ _ _ G2') in A2. destruct A2 as [Hg2 ->].
+    set (f2 := eff_fn b2 ad2 (akey a2) anc2) in *.
+    exists (run_eff (EObj f2) T). split; [apply (apply_obj_iff _ _ _ _ _ _ _ _ G2); auto|].
+    assert (G1' : get_obj (run_eff (EObj f2) T) d1 i1 = None).
+    { rewrite get_obj_run_obj by apply eff_fn_kp. rewrite G1. reflexivity. }
+    apply (apply_tinfo_iff _ _ _ _ _ _ G1').
+    replace (t_nbl (run_eff (EObj f2) T)) with (t_nbl T) by (destruct T; reflexivity).
+    replace (t_infos (run_eff (EObj f2) T)) with (t_infos T) by (destruct T; reflexivity).
+    split; [exact Hd|]. exists nm, ov, nv. split; [reflexivity|]. split; [exact Hp|]. destruct T; reflexivity.
+  - (* topology infos, topology infos *)
+    apply (apply_tinfo_iff _ _ _ _ _ _ G1) in A1. destruct A1 as [Hd1 (n1 & o1 & v1 & -> & Hp1 & ->)].
+    set (l1 := ptot n1 (oldv b1 o1 v1) (newv b1 o1 v1) (t_infos T)) in *.
+    assert (G2' : get_obj (set_tinfos l1 T) d2 i2 = None) by (rewrite get_obj_set_tinfos; exact G2).
+    apply (apply_tinfo_iff _ _ _ _ _ _ G2') in A2.
+    change (t_nbl (set_tinfos l1 T)) with (t_nbl T) in A2. change (t_infos (set_tinfos l1 T)) with l1 in A2.
+    destruct A2 as [Hd2 (n2 & o2 & v2 & -> & Hp2 & ->)].
+    cbn [slot_of] in Hs. rewrite Hd1, Hd2 in Hs. cbn [slot_eqb] in Hs. apply String.eqb_neq in Hs.
+    unfold l1 in Hp2. rewrite phit_ptot in Hp2 by exact Hs.
+    set (l2 := ptot n2 (oldv b2 o2 v2) (newv b2 o2 v2) (t_infos T)).
+    exists (set_tinfos l2 T). split.
+    + apply (apply_tinfo_iff _ _ _ _ _ _ G2). split; [exact Hd2|]. exists n2, o2, v2. auto.
+    + apply apply_tinfo_iff; [rewrite get_obj_set_tinfos; exact G1|].
+      change (t_nbl (set_tinfos l2 T)) with (t_nbl T). change (t_infos (set_tinfos l2 T)) with l2.
+      split; [exact Hd1|]. exists n1, o1, v1. split; [reflexivity|]. split.
+      * unfold l2. rewrite phit_ptot by (intros E; apply Hs; symmetry; exact E). exact Hp1.
+      * unfold l1, l2. rewrite (ptot_comm n2 _ _ n1) by (intros E; apply Hs; symmetry; exact E).
+        destruct T; reflexivity.
+Qed.
+
+Lemma apply_one_nbl b e T T1 : apply_one b e T = Ok T1 -> t_nbl T1 = t_nbl T.
+Proof.
+  unfold apply_one. destruct (step b e T) as [ef| |]; try discriminate. intros E. injection E as <-.
+  destruct ef; destruct T; reflexivity.
+Qed.
+Lemma apply_seq_nbl b d : forall T T1, apply_seq b d T = Some T1 -> t_nbl T1 = t_nbl T.
+Proof.
+  induction d as [|e r IH]; intros T T1 H; cbn [apply_seq] in H; [injection H as <-; reflexivity|].
+  destruct (apply_one b e T) as [T'| |] eqn:E; try discriminate. rewrite (IH _ _ H). eapply apply_one_nbl; eauto.
+Qed.
+
+(* an entry that applies after a list whose entries touch other attributes applies before it, with the same result *)
+Lemma commute_through b b' e d : forall T T1 T2,
+  (0 <= t_nbl T)%Z -> slot_in (slot_of (t_nbl T) e) (map (slot_of (t_nbl T)) d) = false ->
+  apply_seq b d T = Some T1 -> apply_one b' e T1 = Ok T2 ->
+  exists T0, apply_one b' e T = Ok T0 /\ apply_seq b d T0 = Some T2.
+Proof.
+  induction d as [|x r IH]; intros T T1 T2 H0 Hs H1 H2; cbn [apply_seq] in H1.
+  - injection H1 as <-. exists T2. auto.
+  - destruct (apply_one b x T) as [Tx| |] eqn:Ex; try discriminate.
+    cbn [map slot_in] in Hs. apply orb_false_iff in Hs. destruct Hs as [Hs1 Hs2].
+    pose proof (apply_one_nbl _ _ _ _ Ex) as Hn.
+    destruct (IH Tx T1 T2) as (T0' & A & B); try assumption; try (rewrite Hn; assumption).
+    destruct (step_commute _ _ _ _ _ _ _ H0 Hs1 Ex A) as (T0 & C & D).
+    exists T0. split; [exact C|]. cbn [apply_seq]. rewrite D. exact B.
+Qed.
+
+(* a list whose entries touch pairwise different attributes is undone by the
+   same list walked in the same order with the opposite direction *)
+Lemma reverse_seq b d : forall T T1,
+  Hkeys T -> Hnames T -> Hu64 T -> (0 <= t_nbl T)%Z -> forallb entry_u64 d = true ->
+  slots_distinct (t_nbl T) d = true ->
+  apply_seq b d T = Some T1 -> apply_seq (negb b) d T1 = Some T.
+Proof.
+  induction d as [|x r IH]; intros T T1 HK HN HU H0 Hu Hs H; cbn [apply_seq] in H.
+  - injection H as <-. reflexivity.
+  - destruct (apply_one b x T) as [Tx| |] eqn:Ex; try discriminate.
+    cbn [forallb] in Hu. apply andb_true_iff in Hu. destruct Hu as [Hux Hur].
+    unfold slots_distinct in Hs. cbn [map slot_nodup] in Hs. apply andb_true_iff in Hs. destruct Hs as [Hs1 Hs2].
+    apply negb_true_iff in Hs1.
+    destruct (step_preserves _ _ _ _ HK HN HU Hux Ex) as (HK' & HN' & HU').
+    pose proof (apply_one_nbl _ _ _ _ Ex) as Hn.
+    assert (R : apply_seq (negb b) r T1 = Some Tx).
+    { apply IH; try assumption; rewrite Hn; assumption. }
+    pose proof (step_inverse _ _ _ _ HK HN HU Hux Ex) as P.
+    pose proof (apply_seq_nbl _ _ _ _ H) as Hn1.
+    destruct (commute_through (negb b) (negb b) x r T1 Tx T) as (T0 & A & B); try assumption.
+    + rewrite Hn1, Hn. exact H0.
+    + rewrite Hn1, Hn. exact Hs1.
+    + cbn [apply_seq]. rewrite A. exact B.
+Qed.
+
+Lemma flags_rev_0 : negb (N.ldiff 0 HWLOC_TOPOLOGY_DIFF_APPLY_REVERSE =? 0)%N = false /\
+                    negb (N.land 0 HWLOC_TOPOLOGY_DIFF_APPLY_REVERSE =? 0)%N = false /\
+                    negb (N.ldiff HWLOC_TOPOLOGY_DIFF_APPLY_REVERSE HWLOC_TOPOLOGY_DIFF_APPLY_REVERSE =? 0)%N = false /\
+                    negb (N.land HWLOC_TOPOLOGY_DIFF_APPLY_REVERSE HWLOC_TOPOLOGY_DIFF_APPLY_REVERSE =? 0)%N = true.
+Proof. vm_compute. auto. Qed.
+
+Lemma diff_apply_0_seq d T T1 : diff_apply 0 d T = ARet 0 T1 <-> apply_seq false d T = Some T1.
+Proof.
+  unfold diff_apply. destruct flags_rev_0 as (F1 & F2 & _ & _). rewrite F1, F2. split.
+  - destruct (apply_loop false d 0 T) as [T'|n T'|] eqn:El; try discriminate.
+    + intros E. injection E as <-. eapply apply_loop_done; eauto.
+    + destruct (apply_loop_fail _ _ _ _ _ _ El) as (p & e & r & _ & -> & _). destruct (cancel_loop_fixed _ _ _ _); try discriminate.
+      intros E. injection E as E _. lia.
+  - intros H. rewrite (apply_seq_loop _ _ 0%nat _ _ H). reflexivity.
+Qed.
+Lemma diff_apply_rev_seq d T T1 : diff_apply HWLOC_TOPOLOGY_DIFF_APPLY_REVERSE d T = ARet 0 T1 <-> apply_seq true d T = Some T1.
+Proof.
+  unfold diff_apply. destruct flags_rev_0 as (_ & _ & F1 & F2). rewrite F1, F2. split.
+  - destruct (apply_loop true d 0 T) as [T'|n T'|] eqn:El; try discriminate.
+    + intros E. injection E as <-. eapply apply_loop_done; eauto.
+    + destruct (apply_loop_fail _ _ _ _ _ _ El) as (p & e & r & _ & -> & _). destruct (cancel_loop_fixed _ _ _ _); try discriminate.
+      intros E. injection E as E _. lia.
+  - intros H. rewrite (apply_seq_loop _ _ 0%nat _ _ H). reflexivity.
+Qed.
+
+Theorem reverse_restores_distinct d T T1 :
+  Hkeys T -> Hnames T -> Hu64 T -> (0 <= t_nbl T)%Z -> forallb entry_u64 d = true ->
+  slots_distinct (t_nbl T) d = true ->
+  (diff_apply 0 d T = ARet 0 T1 -> diff_apply HWLOC_TOPOLOGY_DIFF_APPLY_REVERSE d T1 = ARet 0 T) /\
+  (diff_apply HWLOC_TOPOLOGY_DIFF_APPLY_REVERSE d T = ARet 0 T1 -> diff_apply 0 d T1 = ARet 0 T).
+Proof.
+  intros HK HN HU H0 Hu Hs. split; intros H.
+  - apply diff_apply_0_seq in H. apply diff_apply_rev_seq. exact (reverse_seq false d T T1 HK HN HU H0 Hu Hs H).
+  - apply diff_apply_rev_seq in H. apply diff_apply_0_seq. exact (reverse_seq true d T T1 HK HN HU H0 Hu Hs H).
 Qed.
